@@ -420,7 +420,7 @@ fn encode_udp_packet_simple(payload: &[u8]) -> Result<Bytes> {
 
 /// Wrappers exposing the private wire-format functions to the verification harness.
 #[cfg(feature = "verif")]
-pub mod verif_api {
+pub mod verif_udp_server {
     use super::*;
     pub async fn read_initial_request(reader: &mut StreamReader) -> Result<SocketAddr> {
         super::read_initial_request(reader).await
